@@ -100,6 +100,10 @@ def replay_errors(model, cls="SinglePhaseReservoir", which="length", length=None
             r.simulate(t, pressure_fracface=np.full(len(t) + 1 if length is None else length, 1000.0))
         elif which == "rf":
             r.recovery_factor()
+        elif which == "rf-with-explicit-time":
+            r.recovery_factor(np.array([0.0, 0.5]))
+        elif which == "rf-with-explicit-time-density":
+            r.recovery_factor(np.array([0.0, 0.5]), density=True)
         else:
             r.recovery_factor_interpolator()
     except (ValueError if which == "length" else Exception) as ex:  # noqa: BLE001
@@ -262,11 +266,16 @@ def job_before(job, cls, after_rejected=False):
     mod = load_reservoir()
     job.encoded(mod, "IdealReservoir.recovery_factor", "IdealReservoir.recovery_factor_interpolator")
     what = "after a rejected simulate call" if after_rejected else "before simulate"
-    for which, call in (("rf", lambda r: r.recovery_factor()), ("interpolator", lambda r: r.recovery_factor_interpolator())):
+    tq = SymArray([Q(0), fresh("tq1", pos=True)], "f8")
+    calls = [("rf", lambda r: r.recovery_factor()), ("interpolator", lambda r: r.recovery_factor_interpolator()),
+             ("rf-with-explicit-time", lambda r: r.recovery_factor(tq))]
+    if cls != "IdealReservoir":
+        calls.append(("rf-with-explicit-time-density", lambda r: r.recovery_factor(tq, density=True)))
+    for which, call in calls:
         def run():
             SS.LinSolve.reset(MemoSolve())
             SS.reset_names()
-            r = _mk(mod, cls, 4, FluidStub() if cls != "IdealReservoir" else None)
+            r = _mk(mod, cls, 4, FluidStub(density_rows=2) if cls != "IdealReservoir" else None)
             if after_rejected:
                 t, _ = times(3)
                 try:
